@@ -5,7 +5,30 @@ import (
 	"runtime"
 	"sync"
 	"sync/atomic"
+	"time"
 )
+
+// Internal deadline of a check run: once it has passed, For (and the worker pool) stop handing out further
+// cases; the run reports what it covered with exhaustive=false and never turns the deadline into a verdict.
+var (
+	deadline    time.Time
+	deadlineHit int32
+)
+
+// SetDeadline arms the deadline (zero time = none).
+func SetDeadline(t time.Time) { deadline = t }
+
+// Expired reports (and remembers) that the deadline has passed.
+func Expired() bool {
+	if deadline.IsZero() || time.Now().Before(deadline) {
+		return false
+	}
+	atomic.StoreInt32(&deadlineHit, 1)
+	return true
+}
+
+// DeadlineHit reports whether any dispatcher stopped early because of the deadline.
+func DeadlineHit() bool { return atomic.LoadInt32(&deadlineHit) != 0 }
 
 // For calls f(i) for i in [0,n) from GOMAXPROCS goroutines.
 func For(n int, f func(i int)) {
@@ -24,7 +47,7 @@ func For(n int, f func(i int)) {
 			defer wg.Done()
 			for {
 				i := int(atomic.AddInt64(&next, 1))
-				if i >= n {
+				if i >= n || Expired() {
 					return
 				}
 				f(i)
